@@ -180,6 +180,9 @@ class EventSeriesClimateNetwork(EventSeries, ClimateNetwork):
                     self.event_analysis_significance(
                         method=self.__method, **ES_significance_kwargs)
 
+                #  (work on a copy: the directed scores are the memoised
+                #  result of the event series analysis itself)
+                measure_matrix = measure_matrix.copy()
                 n_nodes = len(measure_matrix)
                 for i in range(n_nodes):
                     for j in range(n_nodes):
